@@ -22,7 +22,7 @@ MODES = ('always', 'remote', 'nonlocal', 'never')
 XSI = 'http://www.w3.org/2001/XMLSchema-instance'
 
 PAYLOADS = ('internal', 'nested', 'parameter', 'external_file', 'external_http', 'unparsed', 'ext_subset',
-            'unused', 'attr_only', 'ext_subset_empty_id', 'benign_empty_subset', 'benign_element_decl', 'benign_none')
+            'unused', 'attr_only', 'ext_subset_empty_id', 'internal_empty', 'benign_empty_subset', 'benign_element_decl', 'benign_none')
 BENIGN = ('benign_empty_subset', 'benign_element_decl', 'benign_none')
 PROLOGS = ('plain', 'bom8', 'utf16', 'latin1', 'pad9k', 'pad17k', 'pad66k', 'subsetpad66k', 'standalone', 'standalone')
 ROLES = ('instance', 'instance_lazy', 'validate', 'main_schema', 'included', 'imported', 'redefined', 'hinted', 'docapi_schema',
@@ -58,6 +58,9 @@ def doctype(payload, root, secret_file_url, secret_http_url, dtd_url, pad_subset
     pad = ('<!--' + 'p' * 1000 + '-->\n') * pad_subset
     if payload == 'internal' or payload == 'unused' or payload == 'attr_only':
         return f'<!DOCTYPE {root} [\n{pad}<!ENTITY x "{MARK}">\n]>'
+    if payload == 'internal_empty':
+        # declared with an EMPTY replacement text (general and parameter): still an entity declaration
+        return f'<!DOCTYPE {root} [\n{pad}<!ENTITY % p "">\n<!ENTITY e "">\n]>'
     if payload == 'nested':
         return f'<!DOCTYPE {root} [\n{pad}<!ENTITY a "PAYLOAD"><!ENTITY x "&a;_MARKER">\n]>'
     if payload == 'parameter':
@@ -177,7 +180,7 @@ class C13(Check):
                                                                                        'xmldocument_parse'):
             role = rng.choice(['instance', 'instance_lazy', 'validate', 'main_schema'])
         if chan[1] in ('http', 'http_opener') and rng.random() < 0.5:
-            peer = rng.choice(['payload_then_benign', 'benign_then_payload'])
+            peer = rng.choice(['payload_then_benign', 'benign_then_payload', 'broken_then_payload'])
         if peer != 'constant' and role not in ('instance_lazy', 'hinted', 'docapi_schema') and rng.random() < 0.5:
             role = 'instance_lazy'      # a lazy resource opens its source again for every iteration
         case = {'mode': mode, 'chan': chan[0], 'role': role, 'payload': payload, 'prolog': prolog, 'peer': peer,
@@ -357,7 +360,9 @@ class C13(Check):
                 part_locality=None, transient=None):
         """One construction under `mode`; returns exc class, marker presence, canonical tree."""
         name, kind, seekable, urlattr, base = chan
-        bodies = {'constant': [doc], 'payload_then_benign': [doc, benign], 'benign_then_payload': [benign, doc]}[peerbeh]
+        bodies = {'constant': [doc], 'payload_then_benign': [doc, benign], 'benign_then_payload': [benign, doc],
+                  # the first transfer breaks in mid-body (while the check is reading), the next one is complete
+                  'broken_then_payload': [['eio', max(8, len(doc) // 3), doc], doc]}[peerbeh]
         out = {'exc': None, 'marker': False, 'tree': None, 'opens': 0, 'msg': None}
         base_url = {None: None, 'remote': 'http://sim.test/base/', 'local': world + '/'}[base]
         opener = None
@@ -506,6 +511,9 @@ class C13(Check):
                     # the part was refused: surfaced as an include/import warning (or error list)
                     msgs = ' '.join(str(x.message) for x in w)
                     out['exc'] = 'XMLResourceForbidden' if 'orbidden' in msgs or 'ntities' in msgs else 'part-not-loaded'
+                    if out['exc'] == 'XMLResourceForbidden' and role in ('included', 'redefined'):
+                        # an import that fails is a warning by design; a refused include / redefine is an error
+                        out['exc'] = 'forbidden-include-only-warned'
                     out['msg'] = msgs[:200]
         except BaseException as exc:
             if type(exc).__name__ in ('CaseTimeout', 'KeyboardInterrupt', 'SystemExit'):
